@@ -58,8 +58,20 @@ Fixpoint check_steps (tags : list nat) (cur other : obj) (ops : list op) (steps 
                      && negb (nl_eqb (o_attrs (s_res s))
                                      (match o with
                                       | OCtorVal b => firstn 1 (o_attrs cur) ++ (if b then 0 else 1) :: skipn 2 (o_attrs cur)
+                                      | OFromPlain => map (fun _ => 0) (o_attrs cur)
                                       | _ => o_attrs cur
                                       end)))) 3
+      (* construction of another class of the family from the object: a ballot of any kind keeps name and meta;
+         a profile built from the profile of the other side keeps everything but the (inherited) ballot type *)
+      ++ flag (negb (match o with OXCtor _ => Nat.eqb (s_kind s) 1 | _ => false end
+                     && negb (match o with
+                              | OXCtor t =>
+                                  Nat.eqb (o_cls (s_res s)) t
+                                  && if is_ballot t then nl_eqb (o_attrs (s_res s)) (o_attrs cur)
+                                     else nl_eqb (firstn 2 (o_attrs (s_res s)) ++ skipn 3 (o_attrs (s_res s)))
+                                                 (firstn 2 (o_attrs cur) ++ skipn 3 (o_attrs cur))
+                              | _ => true
+                              end))) 3
       ++ flag (negb (match o with OAsMulti => Nat.eqb (s_kind s) 1 | _ => false end
                      && negb (nl_eqb (firstn 2 (o_attrs (s_res s)) ++ skipn 3 (o_attrs (s_res s)))
                                      (firstn 2 (o_attrs cur) ++ skipn 3 (o_attrs cur))))) 3
